@@ -1,10 +1,10 @@
 package harness
 
 import (
-	"sort"
 	"encoding/json"
 	"fmt"
 	"math/rand"
+	"sort"
 	"strings"
 	"testing"
 	"unicode/utf8"
@@ -95,6 +95,11 @@ func genC02(seed int64, tier string) *Scenario {
 	classes, eols := classSets[ci], eolSets[ei]
 	beyond := r.Intn(3) == 0
 	sc.Knobs["classes"], sc.Knobs["eols"], sc.Knobs["beyond"] = classes, eols, beyond
+	// some clients address "up to the end of the document" as a line past the last one
+	pastEnd := r.Intn(4) == 0
+	if pastEnd {
+		sc.Knobs["past_end"] = true
+	}
 	if r.Intn(4) > 0 {
 		sc.Sched = RandomSched(r)
 	}
@@ -179,6 +184,15 @@ func genC02(seed int64, tier string) *Scenario {
 				p1, p2 := randPos(r, cur, beyond), randPos(r, cur, beyond)
 				if lessPos(p2, p1) {
 					p1, p2 = p2, p1
+				}
+				if pastEnd && r.Intn(5) == 0 {
+					p2 = Pos{NumLines(cur) + r.Intn(2), r.Intn(3)}
+					if r.Intn(4) == 0 {
+						p1 = Pos{NumLines(cur) + r.Intn(2), r.Intn(3)}
+						if lessPos(p2, p1) {
+							p1, p2 = p2, p1
+						}
+					}
 				}
 				var ed Edit
 				switch kind := r.Intn(3); {
@@ -309,9 +323,16 @@ func checkC02(t *testing.T, sc *Scenario) *Verdict {
 	var endDocs []endDoc
 	var endDisk []File
 	lastCfg := -1
+	lastWin := 0
+	announced := map[string]bool{} // documents the server said it lost track of (until replaced or re-opened)
 	hooks := Hooks{AfterOp: func(e *Engine, i int, op *Op) string {
+		winBefore := lastWin
+		lastWin = e.WindowMessages()
 		if op.Kind == "config" {
 			lastCfg = i
+		}
+		if op.Kind == "open" || op.Kind == "close" || (op.Kind == "change" && len(op.Edits) > 0 && op.Edits[len(op.Edits)-1].Full) {
+			delete(announced, op.Path)
 		}
 		if op.Kind == "settle" && i == len(sc.Ops)-1 && simRunnable() == 0 {
 			var paths []string
@@ -320,6 +341,9 @@ func checkC02(t *testing.T, sc *Scenario) *Verdict {
 			}
 			sort.Strings(paths)
 			for _, rel := range paths {
+				if announced[rel] {
+					continue
+				}
 				if e.External[rel] {
 					// the world rewrote or removed the file under the open buffer and the watcher said
 					// so: the server then re-analyses the disk text; that situation is outside the
@@ -343,6 +367,9 @@ func checkC02(t *testing.T, sc *Scenario) *Verdict {
 			applied++
 		}
 		for rel, want := range e.Open {
+			if announced[rel] {
+				continue
+			}
 			got, ok := e.DocText(rel)
 			if !ok {
 				failSig = "open-document-missing"
@@ -350,6 +377,12 @@ func checkC02(t *testing.T, sc *Scenario) *Verdict {
 			}
 			if string(got) != string(want) {
 				before := prev[rel]
+				if op.Kind == "change" && op.Path == rel && editsPastDocEnd(before, op.Edits) && lastWin > winBefore {
+					// a range naming a line that does not exist, which this server chose not to apply,
+					// and it said so to the user: not silent. Its text is unknown from here on
+					announced[rel] = true
+					continue
+				}
 				all := append([]byte(nil), before...)
 				for _, ed := range op.Edits {
 					all = append(all, ed.Text...)
@@ -358,6 +391,9 @@ func checkC02(t *testing.T, sc *Scenario) *Verdict {
 				past := ""
 				if op.Kind == "change" && editsPastLineEnd(before, op.Edits) {
 					past = "+past-line-end"
+				}
+				if op.Kind == "change" && editsPastDocEnd(before, op.Edits) {
+					past += "+past-document-end"
 				}
 				failSig = "buffer-mismatch after " + op.Kind + " doc:" + feat + past
 				return fmt.Sprintf("after op#%d %s %s: server buffer %q != client text %q (text before the op: %q)", i, op.Kind, rel, clip(string(got), 200), clip(string(want), 200), clip(string(before), 200))
@@ -468,6 +504,23 @@ func ignoredByConfig(sc *Scenario, path string) bool {
 				return true
 			}
 		}
+	}
+	return false
+}
+
+// editsPastDocEnd reports whether any edit of the batch names a line past the last line of the
+// document it applies to.
+func editsPastDocEnd(doc []byte, eds []Edit) bool {
+	cur := doc
+	for _, ed := range eds {
+		if !ed.Full && (ed.Start.Line >= NumLines(cur) || ed.End.Line >= NumLines(cur)) {
+			return true
+		}
+		n, err := Apply(cur, ed)
+		if err != nil {
+			return false
+		}
+		cur = n
 	}
 	return false
 }
